@@ -110,6 +110,8 @@ pub trait Collector<M: Math, P: Point<M>> {
     spec fn traj(&self) -> Map<int, StateView>;
     /// states passed to register_draw
     spec fn draws(&self) -> Seq<StateView>;
+    /// number of divergent integration steps since register_init
+    spec fn divs(&self) -> nat;
     /// what a concrete collector computes from one integrator step ending in `end` (or diverging) resp. from
     /// register_init: supplied by the implementor (for AcceptanceRateCollector: arc_leapfrog_post / arc_init_post
     /// of _shared/stepsize_spec.rs, proved for the real impl in unit `stepsize`)
@@ -118,9 +120,10 @@ pub trait Collector<M: Math, P: Point<M>> {
     fn register_draw(&mut self, math: &mut M, state: &State<M, P>, info: &SampleInfo)
         ensures final(self).draws() == old(self).draws().push(state.view()),
                 final(self).leapfrogs() == old(self).leapfrogs(), final(self).traj() == old(self).traj(),
+                final(self).divs() == old(self).divs(),
                 final(math).dim_spec() == old(math).dim_spec(), no_eval(old(math), final(math));
     fn register_init(&mut self, math: &mut M, state: &State<M, P>, options: &NutsOptions)
-        ensures final(self).leapfrogs() == 0,
+        ensures final(self).leapfrogs() == 0, final(self).divs() == 0,
                 final(self).traj() == Map::<int, StateView>::empty().insert(state.view().idx, state.view()),
                 final(self).draws() == old(self).draws(),
                 final(math).dim_spec() == old(math).dim_spec(), no_eval(old(math), final(math)),
@@ -129,6 +132,7 @@ pub trait Collector<M: Math, P: Point<M>> {
     fn register_leapfrog(&mut self, math: &mut M, start: &State<M, P>, end: &State<M, P>, divergence_info: Option<&DivergenceInfo>)
         ensures final(self).leapfrogs() == old(self).leapfrogs() + 1,
                 final(self).draws() == old(self).draws(),
+                final(self).divs() == old(self).divs() + (if divergence_info is Some { 1nat } else { 0nat }),
                 divergence_info is None ==> final(self).traj() == old(self).traj().insert(end.view().idx, end.view()),
                 divergence_info is Some ==> final(self).traj() == old(self).traj(),
                 final(math).dim_spec() == old(math).dim_spec(), no_eval(old(math), final(math)),
@@ -166,6 +170,8 @@ pub trait Hamiltonian<M: Math>: Sized {
             !(r is Err) ==> final(collector).leapfrogs() == old(collector).leapfrogs() + 1,
             r is Err ==> final(collector).leapfrogs() == old(collector).leapfrogs(),
             final(collector).draws() == old(collector).draws(),
+            // a divergent step is counted as such by the collector (and only a divergent one)
+            final(collector).divs() == old(collector).divs() + (if r is Divergence { 1nat } else { 0nat }),
             match r {
                 LeapfrogResult::Ok(out) => {
                     &&& out.view().idx == start.view().idx + dir_sign(dir)
